@@ -1,6 +1,7 @@
 package main
 
 import (
+	"math/big"
 	"verif/internal/checks/c08"
 	"verif/internal/ev"
 	"strings"
@@ -13,6 +14,16 @@ import (
 func relayCfg(id, tier string) relay.Config {
 	if tier == "script" {
 		return relay.Config{Prop: id, Chains: 3, MaxSends: 12}
+	}
+	if strings.HasSuffix(tier, "/big") {
+		// every ERC-20 amount is a multiple of 2^64+1: above 64 bits, with non-zero low bits (truncation anywhere on the way shows)
+		c := relay.Config{Prop: id, Chains: 2, MaxSends: 2, Depth: 10, Scale: new(big.Int).Add(new(big.Int).Lsh(big.NewInt(1), 64), big.NewInt(1)),
+			Sends:     []string{"A B erc20 3", "B A back 1", "A B erc20+callrevert 1", "A B feeonly1 1"},
+			RecvForms: []string{"g1"}, AckForms: []string{"g1"}}
+		if strings.HasPrefix(tier, "thorough") {
+			c.MaxSends, c.Depth = 3, 14
+		}
+		return c
 	}
 	if strings.HasSuffix(tier, "/tss") {
 		return relayTSSCfg(id, strings.TrimSuffix(tier, "/tss"))
@@ -122,13 +133,17 @@ func registerRelay(id string, rule string, assume []string, minClasses int) {
 		bounds: func(tier string) map[string]interface{} {
 			c := relayCfg(id, tier)
 			m := map[string]interface{}{"chains": c.Chains, "max_sends": c.MaxSends, "depth": c.Depth, "send_menu": c.Sends, "recv_forms": c.RecvForms, "ack_forms": c.AckForms}
+			if id == "C03" {
+				t := relayCfg(id, tier+"/big")
+				m["big_amount_variant"] = map[string]interface{}{"unit": t.Scale.String(), "max_sends": t.MaxSends, "depth": t.Depth, "send_menu": t.Sends}
+			}
 			if id == "C01" || id == "C05" {
 				t := relayCfg(id, tier+"/tss")
 				m["tss_variant"] = map[string]interface{}{"chains": t.Chains, "max_sends": t.MaxSends, "depth": t.Depth, "send_menu": t.Sends, "recv_forms": t.RecvForms, "ack_forms": t.AckForms}
 			}
 			return m
 		},
-		variants: map[string][]string{"C01": {"tss"}, "C05": {"tss"}}[id],
+		variants: map[string][]string{"C01": {"tss"}, "C05": {"tss"}, "C03": {"big"}}[id],
 		extra: map[string]func(r *ev.Run, tier string) (int64, int64){
 			// BSC- and ETH-secured counterparties: the proof component space of their verifiers (the C08 enumeration) is part of C02 too
 			"C02": func(r *ev.Run, tier string) (int64, int64) { return c08.Run(r, "quick") },
